@@ -117,7 +117,16 @@ func runC08(tier, replay string) {
 			verifhook.Set("gc.after-candidates", delay(3000))
 			verifhook.Set("gc.after-condemn-commit", delay(3000))
 			verifhook.Set("gc.after-reconcile", delay(1500))
-			verifhook.Set("tx.commit.after-db", func(string, int64) error { return nil })
+			// widen the gaps BETWEEN the consecutive transactions of a GC pass (a pass is a
+			// series of short transactions; anything it carries from one to the next can go stale)
+			var gcActive atomic.Bool
+			gapDelay := delay(2500)
+			verifhook.Set("tx.commit.done", func(n string, k int64) error {
+				if gcActive.Load() && k%2 == 0 {
+					return gapDelay(n, k)
+				}
+				return nil
+			})
 
 			var mu sync.Mutex
 			var live []verInfo
@@ -160,7 +169,9 @@ func runC08(tier, replay string) {
 						return
 					default:
 					}
+					gcActive.Store(true)
 					_ = metadatapart.RunGCOnce(ctx, s)
+					gcActive.Store(false)
 					gcPasses.Add(1)
 					time.Sleep(500 * time.Microsecond)
 				}
